@@ -165,6 +165,11 @@ impl Runner {
             if let Some(v) = self.sc.died(if step_budget { "step-budget" } else { "sim-abort" }, &e) {
                 return CaseResult { verdict: Verdict::Violation, violations: vec![(v.sig, v.detail)], body: json!({"died": e}), note: e };
             }
+            if step_budget {
+                // no scenario needs more than a few ten thousand scheduling steps; a run that is still
+                // going after the whole budget never quiesces: some thread of the program spins
+                return CaseResult { verdict: Verdict::Violation, violations: vec![("livelock:run".into(), format!("the run exceeded its step budget without quiescing (a library call keeps retrying or a library thread spins): {}", e.lines().next().unwrap_or("")))], body: json!({"died": e}), note: e };
+            }
             return CaseResult { verdict: Verdict::HarnessError, violations: vec![], body: Value::Null, note: format!("{} ; {}", e, panics.trim()) };
         }
         match res {
@@ -441,13 +446,20 @@ pub fn check(sc: &'static dyn Scenario, o: &CheckOpts) -> i32 {
             known_seen.push(json!({"sig": sig, "count": count, "example": cases[0]["detail"]}));
             continue;
         }
-        let mut case = cases[0].clone();
-        for c in cases {
-            if c["idx"].as_u64() < case["idx"].as_u64() {
-                case = c.clone();
+        // lowest case index first; if that one does not reproduce from its own parameters, the
+        // other recorded cases of the same signature are tried before giving up
+        let mut sorted: Vec<&Value> = cases.iter().collect();
+        sorted.sort_by_key(|c| c["idx"].as_u64().unwrap_or(u64::MAX));
+        let mut case = sorted[0].clone();
+        let mut result = minimise_and_write(&runner, sc, sig, &case, &o.replay_dir, o.seed);
+        for c in sorted.iter().skip(1).take(3) {
+            if result.is_ok() {
+                break;
             }
+            case = (*c).clone();
+            result = minimise_and_write(&runner, sc, sig, &case, &o.replay_dir, o.seed);
         }
-        match minimise_and_write(&runner, sc, sig, &case, &o.replay_dir, o.seed) {
+        match result {
             Ok((path, info)) => {
                 println!("VIOLATION property={} replay={}", sc.id(), path);
                 println!("  signature: {}", sig);
